@@ -23,5 +23,5 @@ def gen(tier, rng):
     for prop, stride in REUSE.items():
         k = stride if tier == "quick" else max(1, stride // 3)
         for i, (line, kind) in enumerate(_auto.make_gen(prop, also=False)("quick", rng)):
-            if i % k == 0:
+            if i % k == 0 and not kind.endswith(".wild"):   # `.wild` = outside the valid domain: profile dependent by nature
                 yield (line, f"{prop}/{kind}")
